@@ -34,6 +34,8 @@ func main() {
 		cmdList(os.Args[2:])
 	case "replay":
 		cmdReplay(os.Args[2:])
+	case "loops":
+		cmdLoops(os.Args[2:])
 	default:
 		usage()
 	}
@@ -149,5 +151,44 @@ func cmdList(args []string) {
 	sort.Strings(ks)
 	for _, k := range ks {
 		fmt.Println(k)
+	}
+}
+
+// cmdLoops prints, for each named function, the ordinal of every loop (as used by `loop n` in contracts) with the source
+// position of the first positioned instruction of its header or body.
+func cmdLoops(args []string) {
+	eng, err := loadEngine("/repo", []string{"./..."})
+	if err != nil {
+		fmt.Fprintln(os.Stderr, "load:", err)
+		os.Exit(2)
+	}
+	for _, fn := range eng.matchFuncs(args) {
+		if fn.Blocks == nil {
+			continue
+		}
+		loops := findLoops(fn)
+		ords := loopOrdinals(fn, loops)
+		fmt.Println(eng.funcKeyShort(fn))
+		for h, li := range loops {
+			pos := ""
+			var idx []int
+			for b := range li.blocks {
+				idx = append(idx, b)
+			}
+			sort.Ints(idx)
+			best := 1 << 30
+			for _, b := range idx {
+				for _, in := range fn.Blocks[b].Instrs {
+					if in.Pos().IsValid() {
+						p := eng.fset.Position(in.Pos())
+						if p.Line < best {
+							best = p.Line
+							pos = fmt.Sprintf("%s:%d", filepath.Base(p.Filename), p.Line)
+						}
+					}
+				}
+			}
+			fmt.Printf("  loop %d: header block %d, first line %s, %d blocks\n", ords[h], h, pos, len(li.blocks))
+		}
 	}
 }
